@@ -794,10 +794,12 @@ static void ChildInvocation(const JV& step) {
   std::unique_ptr<StatusPrinter> printer;
   if (step["printer"].t == JV::Str && !step["printer"].s.empty()) {
     if (!cap.Setup(step["printer"].s)) finish(1, "printer capture failed");
+    string fmt = step["nstatus"].t == JV::Str ? step["nstatus"].s : string("");
+    if (!fmt.empty()) setenv("NINJA_STATUS", fmt.c_str(), 1);
     printer.reset(new StatusPrinter(pconfig));
     status.real = printer.get();
     status.cap = &cap;
-    Emit("{\"e\":\"Printer\",\"mode\":" + JEsc(cap.mode) + ",\"verbose\":" + (step["verbose"].boolean() ? "true" : "false") + "}");
+    Emit("{\"e\":\"Printer\",\"mode\":" + JEsc(cap.mode) + ",\"verbose\":" + (step["verbose"].boolean() ? "true" : "false") + ",\"fmt\":" + JEsc(fmt) + "}");
   }
   int code = 0;
   string msg;
